@@ -174,6 +174,10 @@ type server struct {
 	status   int32        //server status
 	// clients stores the  online clients
 	clients map[string]*client
+	// conns stores every network connection that is being served, including the ones which have not (yet) completed CONNECT.
+	conns map[*client]struct{}
+	// stopped is set by Stop, no new connection will be served.
+	stopped bool
 	// offlineClients store the expired time of all disconnected clients
 	// with valid session(not expired). Key by clientID
 	offlineClients  map[string]time.Time
@@ -1137,7 +1141,32 @@ func (srv *server) newClient(c net.Conn) (*client, error) {
 	}
 	client.setConnecting()
 
+	if err := srv.addConn(client); err != nil {
+		_ = c.Close()
+		return nil, err
+	}
 	return client, nil
+}
+
+// addConn remembers a connection which is going to be served, so that Stop can close it.
+func (srv *server) addConn(c *client) error {
+	srv.mu.Lock()
+	defer srv.mu.Unlock()
+	if srv.stopped {
+		return errors.New("server stopped")
+	}
+	if srv.conns == nil {
+		srv.conns = make(map[*client]struct{})
+	}
+	srv.conns[c] = struct{}{}
+	return nil
+}
+
+// removeConn forgets a connection which has been served.
+func (srv *server) removeConn(client *client) {
+	srv.mu.Lock()
+	delete(srv.conns, client)
+	srv.mu.Unlock()
 }
 
 func (srv *server) initPluginHooks() error {
@@ -1536,13 +1565,12 @@ func (srv *server) Stop(ctx context.Context) error {
 		for _, ws := range srv.websocketServer {
 			ws.Server.Shutdown(ctx)
 		}
-		// close all idle clients
+		// close all connections, including the ones which have not completed CONNECT.
 		srv.mu.Lock()
-		chs := make([]chan struct{}, len(srv.clients))
-		i := 0
-		for _, c := range srv.clients {
-			chs[i] = c.closed
-			i++
+		srv.stopped = true
+		chs := make([]chan struct{}, 0, len(srv.conns))
+		for c := range srv.conns {
+			chs = append(chs, c.closed)
 			c.Close()
 		}
 		srv.mu.Unlock()
